@@ -6,12 +6,12 @@
 package dagx
 
 import (
-	"bufio"
 	"bytes"
+	"compress/zlib"
+	"crypto/sha1"
+	"encoding/binary"
 	"fmt"
 	"math/bits"
-	"os"
-	"path/filepath"
 	"sort"
 	"strings"
 
@@ -232,70 +232,110 @@ func NewMulti(comps []DAG) *Multi {
 	return m
 }
 
-// FastImport renders all components; commit g gets mark :g+1; every commit
-// has the same one-file tree; the message carries (component, node) so that
-// equal-looking roots of different components are distinct objects.
-func (m *Multi) FastImport() []byte {
-	var b bytes.Buffer
-	blob := m.Total + 1
-	fmt.Fprintf(&b, "blob\nmark :%d\ndata 2\nx\n\n", blob)
-	for k, c := range m.Comps {
-		for i, ps := range c.Parents {
-			if len(ps) == 0 {
-				b.WriteString("reset refs/verif/x\n\n")
-			}
-			msg := fmt.Sprintf("k%d n%d\n", k, i)
-			fmt.Fprintf(&b, "commit refs/verif/x\nmark :%d\n", m.Off[k]+i+1)
-			fmt.Fprintf(&b, "author A U Thor <author@example.com> %d +0000\n", c.Time[i])
-			fmt.Fprintf(&b, "committer C O Mitter <committer@example.com> %d +0000\n", c.Time[i])
-			fmt.Fprintf(&b, "data %d\n%s\n", len(msg), msg)
-			for j, p := range ps {
-				if j == 0 {
-					fmt.Fprintf(&b, "from :%d\n", m.Off[k]+p+1)
-				} else {
-					fmt.Fprintf(&b, "merge :%d\n", m.Off[k]+p+1)
-				}
-			}
-			fmt.Fprintf(&b, "deleteall\nM 100644 :%d f\n\n", blob)
-		}
-	}
-	return b.Bytes()
+// object ids and raw bodies -------------------------------------------------
+
+func objID(typ string, body []byte) [20]byte {
+	h := sha1.New()
+	fmt.Fprintf(h, "%s %d\x00", typ, len(body))
+	h.Write(body)
+	var out [20]byte
+	copy(out[:], h.Sum(nil))
+	return out
 }
 
-// Import runs fast-import in dir (initialised repository) and returns commit ids by global index.
+type packWriter struct {
+	buf bytes.Buffer
+	n   uint32
+	zw  *zlib.Writer
+}
+
+func (w *packWriter) add(typ int, body []byte) {
+	// type/size header
+	size := len(body)
+	b := byte(typ<<4) | byte(size&0x0f)
+	size >>= 4
+	for size > 0 {
+		w.buf.WriteByte(b | 0x80)
+		b = byte(size & 0x7f)
+		size >>= 7
+	}
+	w.buf.WriteByte(b)
+	if w.zw == nil {
+		w.zw, _ = zlib.NewWriterLevel(&w.buf, zlib.BestSpeed)
+	} else {
+		w.zw.Reset(&w.buf)
+	}
+	w.zw.Write(body)
+	w.zw.Close()
+	w.n++
+}
+
+func (w *packWriter) bytes() []byte {
+	var out bytes.Buffer
+	out.WriteString("PACK")
+	binary.Write(&out, binary.BigEndian, uint32(2))
+	binary.Write(&out, binary.BigEndian, w.n)
+	out.Write(w.buf.Bytes())
+	sum := sha1.Sum(out.Bytes())
+	out.Write(sum[:])
+	return out.Bytes()
+}
+
+// Import writes all components as an undeltified pack (one blob, one tree,
+// all commits: every commit has the same one-file tree; the message carries
+// (component, node) so equal-looking roots of different components are
+// distinct objects), lets `git index-pack --strict` verify and index it in
+// dir (an initialised repository), verifies with cat-file that every computed
+// id is a commit for git, and returns the commit ids by global index.
+// (git fast-import is not used here: creating many root commits in one
+// stream is pathologically slow in git 2.39.)
 func (m *Multi) Import(g *gitx.Git, dir string) ([]string, error) {
-	marks := filepath.Join(g.Home, fmt.Sprintf("mmarks-%d", gitx.Calls.Load()))
-	r := g.RunIn(dir, m.FastImport(), "fast-import", "--quiet", "--force", "--export-marks="+marks)
-	if !r.OK() {
-		return nil, fmt.Errorf("fast-import: %s", r)
-	}
-	defer os.Remove(marks)
-	f, err := os.Open(marks)
-	if err != nil {
-		return nil, err
-	}
-	defer f.Close()
+	pw := &packWriter{}
+	blob := []byte("x\n")
+	blobID := objID("blob", blob)
+	pw.add(3, blob)
+	tree := append([]byte("100644 f\x00"), blobID[:]...)
+	treeID := objID("tree", tree)
+	pw.add(2, tree)
 	ids := make([]string, m.Total)
-	sc := bufio.NewScanner(f)
-	for sc.Scan() {
-		var mk int
-		var id string
-		if _, err := fmt.Sscanf(sc.Text(), ":%d %s", &mk, &id); err == nil && mk >= 1 && mk <= m.Total {
-			ids[mk-1] = id
+	seen := make(map[string]int, m.Total)
+	var body bytes.Buffer
+	for k, c := range m.Comps {
+		for i, ps := range c.Parents {
+			body.Reset()
+			fmt.Fprintf(&body, "tree %x\n", treeID[:])
+			for _, p := range ps {
+				fmt.Fprintf(&body, "parent %s\n", ids[m.Off[k]+p])
+			}
+			fmt.Fprintf(&body, "author A U Thor <author@example.com> %d +0000\n", c.Time[i])
+			fmt.Fprintf(&body, "committer C O Mitter <committer@example.com> %d +0000\n", c.Time[i])
+			fmt.Fprintf(&body, "\nk%d n%d\n", k, i)
+			id := objID("commit", body.Bytes())
+			hex := fmt.Sprintf("%x", id[:])
+			gi := m.Off[k] + i
+			if j, dup := seen[hex]; dup {
+				return nil, fmt.Errorf("commits %d and %d collapsed into one object %s", j, gi, hex)
+			}
+			seen[hex] = gi
+			ids[gi] = hex
+			pw.add(1, body.Bytes())
 		}
 	}
-	seen := make(map[string]int, len(ids))
-	for i, id := range ids {
-		if id == "" {
-			return nil, fmt.Errorf("no mark for commit %d", i)
-		}
-		if j, dup := seen[id]; dup {
-			return nil, fmt.Errorf("commits %d and %d collapsed into one object %s", j, i, id)
-		}
-		seen[id] = i
+	r := g.RunIn(dir, pw.bytes(), "index-pack", "--stdin", "--strict")
+	if !r.OK() {
+		return nil, fmt.Errorf("index-pack: %s", r)
 	}
-	if r := g.Run(dir, "update-ref", "-d", "refs/verif/x"); !r.OK() {
-		return nil, fmt.Errorf("update-ref -d: %s", r)
+	// every id must be a commit for git
+	var in bytes.Buffer
+	for _, id := range ids {
+		in.WriteString(id + "\n")
+	}
+	r = g.RunIn(dir, in.Bytes(), "cat-file", "--batch-check=%(objecttype)")
+	if !r.OK() {
+		return nil, fmt.Errorf("cat-file: %s", r)
+	}
+	if strings.Count(string(r.Out), "commit\n") != len(ids) || len(r.Out) != 7*len(ids) {
+		return nil, fmt.Errorf("cat-file does not see %d commits: %.200q", len(ids), r.Out)
 	}
 	return ids, nil
 }
